@@ -97,10 +97,10 @@ claim("C07", "Every index/slice/make/division/array-conversion/unchecked-asserti
 
 # additions after the seeding rounds (DESIGN.md 9.7-9.8): appended to the claim text of the property
 EXTRA = {
- "C16": " No goroutine started during the client handshake sets a deadline; after the handshake deadline was armed only the zero time is set.",
+ "C16": " No goroutine started during the client handshake sets a deadline; after the handshake deadline was armed only the zero time is set. The token-list test that decides 'malformed' matches whole tokens with ASCII folding on every header line (shared with C14).",
  "C13": " No package-level state is written after initialisation. Upgrade does not read the Origin header itself (every origin refusal is the policy's 403).",
  "C09": " The frame type WritePreparedMessage passes to write is the type the cached frame was rendered with. The control frame a WriteControl call writes is assembled in call-private memory.",
- "C01": " Also: class-invariant (assume/guarantee) bounds proof of the whole write path (14 <= w.pos <= len(writeBuf) established, preserved by every store, sufficient for every index/slice site; ncopy/flushFrame summaries are obligations; Write loops make progress); rules shared with C02/C03/C08/C17/C20 for whole frames, message boundaries, early bytes, readable control frames and exclusive buffers. No handshake deadline is left armed on a dialed connection; a WriteControl that timed out waiting for the connection records no write error. The connection keeps the reader it was built with (no Reset, no replacement).",
+ "C01": " Also: class-invariant (assume/guarantee) bounds proof of the whole write path (14 <= w.pos <= len(writeBuf) established, preserved by every store, sufficient for every index/slice site; ncopy/flushFrame summaries are obligations; Write loops make progress); rules shared with C02/C03/C08/C17/C20 for whole frames, message boundaries, early bytes, readable control frames and exclusive buffers. No handshake deadline is left armed on a dialed connection; a WriteControl that timed out waiting for the connection records no write error. The connection keeps the reader it was built with (no Reset, no replacement). The reply's extension header is examined on every field line (compression agreed by both ends).",
  "C02": " Also: raw-pointer word store of maskBytes stays inside the slice on all four build variants; frames are whole (critical-section protocol, private control-frame buffer); prepared payload snapshot is cut from a single frame; every compression level goes through flate; pooled deflaters and buffers are exclusive. A failed transport write is always recorded (no frame follows a torn one); a server connection compresses only if its 101 response announced the extension. Every PreparedMessage variant is rendered by the package's own writer and its cached bytes are never modified afterwards.",
  "C03": " Also: every Read method layered over another reader returns the inner count and passes non-EOF errors on; early bytes buffered before the upgrade are replayed completely; control frames of every legal size are readable and dispatched. No protocol-error return of advanceFrame is compatible with a conformant non-close header (full paths, header alphabet); the end of one message is never reported as the end of a joined stream. Failed frame reads are final (no resynchronisation after a timeout); reader types deliver data through Read only (another exported data-pulling method is reported as undecided); the connection's reader is never reset or replaced. ReadJSON's outcome is the decoder's (nil after a successful Decode, the decoder's own error otherwise); a reader that reported io.EOF is dropped in the same call.",
  "C04": " Also: the 1002 close is sent with a deadline that is now + a positive constant; the violating frame's error reaches readers through every wrapper. A control write that merely timed out does not prevent the later 1002 close. No frame RFC 6455 allows is treated as a violation (full-path accept table).",
@@ -110,9 +110,9 @@ EXTRA = {
  "C08": " Also: the pong/close reply is assembled in call-private memory, sent with a future deadline; every reader a Conn can get holds a maximal control frame. Errors raised under a compressed or joined message reach the application unwrapped; a timed-out control write leaves later replies sendable. Control frames arriving with the handshake reach their handlers: the connection keeps its reader. ReadJSON returns connection errors unwrapped.",
  "C10": " Also: the transport's write deadline is touched only while holding the write lock; a refused control frame leaves no open writer behind. The concurrent-write detector is released on every return of the function that set it. PreparedMessage variants are rendered by WriteMessage, so invalid requests are refused as for WriteMessage. Every error Conn.write returns is recorded as the sticky write error.",
  "C11": " Also: the transport's write deadline is touched only while holding the write lock. Each PreparedMessage variant is rendered in memory of its own; the concurrent-write detector is released on every return. Cached PreparedMessage bytes are immutable after once.Do.",
- "C12": " Also: the default origin policy (shared with C13), the application's Sec-Websocket-Protocol entry is never copied into the reply, quoted-pair handling of the extension parser (pairs of consecutive scanner iterations). No package-level state is written after initialisation (no cache carries one handshake into the next).",
- "C14": " Also: the capture buffer holds exactly 1024 bytes; the challenge-key error is known nil before any network activity. The handshake request is serialised in origin form only (Request.Write, never WriteProxy). No package-level state is written after initialisation (keys, headers and TLS configurations are per call). Caller header entries are stored under their own keys.",
- "C15": " Also: prepared messages are compressed only for connections that negotiated compression; every compression level produces a deflate stream. The client's decision follows the reply alone (no silent skip under its own EnableCompression setting); caller-supplied extension offers are not copied; pooled deflaters are exclusive; extension headers spread over several lines are all parsed. Pooled inflaters are exclusive and a closed wrapper stays closed. A connection without compression is returned only on paths that consulted parseExtensions(resp.Header) (every header line).",
+ "C12": " Also: the default origin policy (shared with C13), the application's Sec-Websocket-Protocol entry is never copied into the reply, quoted-pair handling of the extension parser (pairs of consecutive scanner iterations). No package-level state is written after initialisation (no cache carries one handshake into the next). Token lists are scanned on every field line of the header (never through Header.Get) and skipSpace skips SP and HTAB only.",
+ "C14": " Also: the capture buffer holds exactly 1024 bytes; the challenge-key error is known nil before any network activity. The handshake request is serialised in origin form only (Request.Write, never WriteProxy). No package-level state is written after initialisation (keys, headers and TLS configurations are per call). Caller header entries are stored under their own keys. Token lists are scanned on every field line of the header and skipSpace skips SP and HTAB only.",
+ "C15": " Also: prepared messages are compressed only for connections that negotiated compression; every compression level produces a deflate stream. The client's decision follows the reply alone (no silent skip under its own EnableCompression setting); caller-supplied extension offers are not copied; pooled deflaters are exclusive; extension headers spread over several lines are all parsed. Pooled inflaters are exclusive and a closed wrapper stays closed. A connection without compression is returned only on paths that consulted parseExtensions(resp.Header) (every header line). parseExtensions examines every field line (no Header.Get).",
  "C17": " Also: newConn calls nothing on a reader it is given. Conn.br is assigned only by newConn and bufio.Reader.Reset is never called on the connection's reader. Whichever reader the connection ends up with holds a maximal control frame.",
  "C18": " Also: the first-hop TLS config is a clone of the caller's; the package never fills the trusted NetDialTLSContext hook itself. Basic proxy credentials use the standard base64 alphabet. The CONNECT header carrying credentials is created per dial; the backend TLS configuration is the caller's Dialer.TLSClientConfig (never swapped in a local copy); no package-level state. The URL the Proxy function returned reaches netDialFn unchanged. Of crypto/tls.Config the library stores only ServerName (who-may-write rule; NextProtos is the one reviewed neutral field): no library-installed session cache, root set or verification switch.",
  "C19": " Also: the {server, uncompressed} rendering is a single frame; the private rendering Conn writes only into memory allocated for that rendering. Cached frame bytes are only returned, sliced, measured or passed to Conn.write; every call of write passes the frame type of the bytes it writes.",
